@@ -588,7 +588,7 @@ Lemma new_getters :
 Proof. repeat split. Qed.
 
 (* the style model against the abstract record specification *)
-Definition abs_style (s : style) : sstyle color := mkS (st_fg s) (st_bg s) (st_ul s) (st_eff s).
+Definition abs_style (s : style) : astyle color := mkAS (st_fg s) (st_bg s) (st_ul s) (st_eff s).
 
 Lemma setters_are_spec s v e :
   abs_style (st_fg_color s v) = sp_setc FFg v (abs_style s) /\
